@@ -24,12 +24,19 @@ Record step := mkstep {
   s_xw : string; s_xr : string  (* side observations (results of pipelined commands) *)
 }.
 
+Inductive shaop := SSet (script sha : string) | SGet (script : string) (observed : option string).
+
 Record case := mkcase {
-  c_kind : nat;                 (* 0 redis wrapper vs raw, 1 kv store vs one server, 2 breaker phases *)
+  c_kind : nat;                 (* 0 redis wrapper(s) vs raw (one or several addresses, restarts), 1 kv store vs one
+                                   server, 2 breaker phases, 3 script cache stream *)
   c_steps : list step;
-  c_dump_w : list (string * string);
+  c_dump_w : list (string * string);   (* several addresses: keys prefixed by the index of their server *)
   c_dump_r : list (string * string);
-  c_phases : list (list (err * nat))   (* kind 2: absent keys, cancelled contexts, dead server *)
+  c_phases : list (list (err * nat));  (* kind 2: absent keys, cancelled contexts, dead server *)
+  c_frozen : bool;              (* dead-context stream: the steps after the mark must not touch the server *)
+  c_dump_w0 : list (string * string);  (* wrapper-side keyspace at the mark *)
+  c_place : list (string * nat);       (* kv: (key, shard holding it), snapshots taken at every restart and at the end *)
+  c_sha : list shaop            (* kind 3 *)
 }.
 
 Definition repr0 (_ : val) : string := "?".
@@ -115,6 +122,29 @@ Definition doc_acceptable (e : err) : bool := match e with ENone | ENil | ECance
 
 Definition is_conn (e : err) : bool := match e with EOther _ | EUnavailable => true | _ => false end.
 
+(* a key never changes shard (restarts of shard servers included) *)
+Definition place_stable (l : list (string * nat)) : bool :=
+  forallb (fun p => forallb (fun q => negb (String.eqb (fst p) (fst q)) || Nat.eqb (snd p) (snd q)) l) l.
+
+Definition frozen_ok (c : case) : bool :=
+  if c_frozen c then dump_eqb (c_dump_w0 c) (c_dump_w c) else true.
+
+(* script cache stream, model side: the assoc-map transcription answers every GetSha as observed *)
+Fixpoint sha_model (m : scache) (l : list shaop) : bool :=
+  match l with
+  | [] => true
+  | SSet s x :: r => sha_model (sc_set m s x) r
+  | SGet s o :: r => option_eqb String.eqb (sc_get m s) o && sha_model m r
+  end.
+
+(* spec side: every observed GetSha is the most recent SetSha of that text in the history so far *)
+Fixpoint sha_spec (past : list (string * string)) (l : list shaop) : bool :=
+  match l with
+  | [] => true
+  | SSet s x :: r => sha_spec (past ++ [(s, x)]) r
+  | SGet s o :: r => option_eqb String.eqb (last_set s past) o && sha_spec past r
+  end.
+
 Definition model_ok (c : case) : bool :=
   match c_kind c with
   | 2%nat =>
@@ -123,6 +153,7 @@ Definition model_ok (c : case) : bool :=
                         phase_ok C12_Gen.acceptable None pd
       | _ => false
       end
+  | 3%nat => sha_model [] (c_sha c)
   | k => forallb (step_ok C12_Gen.acceptable k C12_Table.redis_table C12_Table.kv_table) (c_steps c) &&
          dump_eqb (c_dump_w c) (c_dump_r c)
   end.
@@ -139,6 +170,7 @@ Definition spec_ok (c : case) : bool :=
           existsb (fun en => err_eqb (fst en) EUnavailable) pd
       | _ => false
       end
+  | 3%nat => sha_spec [] (c_sha c)
   | k => forallb (step_ok doc_acceptable k redis_spec kv_spec) (c_steps c) &&
-         dump_eqb (c_dump_w c) (c_dump_r c)
+         dump_eqb (c_dump_w c) (c_dump_r c) && frozen_ok c && place_stable (c_place c)
   end.
